@@ -17,7 +17,7 @@ import (
 
 type Agg struct {
 	Fn  string  `json:"fn"`
-	Arg string  `json:"arg"` // "v", "d.v", "v + w", "v * 2", "v - 1", "*"
+	Arg string  `json:"arg"` // "v", "d.v", "v + w", "v * 2", "v - 1", "v * 0.5", "v * 1.5", "d.v * 2", "*"
 	P   float64 `json:"p,omitempty"`
 	Nth int     `json:"nth,omitempty"`
 }
@@ -31,10 +31,12 @@ type Case struct {
 }
 
 var fns = []string{"count", "sum", "avg", "min", "max", "stddev", "stddevs", "var", "vars", "median", "percentile", "first_value", "last_value", "nth_value", "collect", "deduplicate", "merge_agg"}
-var args = []string{"v", "v", "v", "d.v", "v + w", "v * 2", "v - 1"}
+var args = []string{"v", "v", "v", "d.v", "v + w", "v * 2", "v - 1", "v * 0.5", "v * 1.5", "d.v * 2"}
 var ps = []float64{0, 0.25, 0.5, 0.9, 0.95, 1}
 
-func isArith(arg string) bool { return arg == "v + w" || arg == "v * 2" || arg == "v - 1" }
+func isArith(arg string) bool {
+	return arg == "v + w" || arg == "v * 2" || arg == "v - 1" || arg == "v * 0.5" || arg == "v * 1.5" || arg == "d.v * 2"
+}
 
 func excluded(fn, arg string) bool {
 	if arg != "v" && arg != "*" && pbt.Open("C03", "arg:"+arg+"@"+fn) {
@@ -215,6 +217,22 @@ func argCell(r gen.Row, arg string) cell {
 			return cell{null: true}
 		}
 		return cell{f: a.f - 1, isInt: a.isInt}
+	case "v * 0.5", "v * 1.5":
+		a := num(r["v"])
+		if a.null {
+			return cell{null: true}
+		}
+		k := 0.5
+		if arg == "v * 1.5" {
+			k = 1.5
+		}
+		return cell{f: a.f * k}
+	case "d.v * 2":
+		a := num(r["dv"])
+		if a.null {
+			return cell{null: true}
+		}
+		return cell{f: a.f * 2, isInt: a.isInt}
 	}
 	return cell{null: true}
 }
@@ -662,12 +680,12 @@ func features(c Case) []string {
 }
 
 var spec = pbt.Spec[Case]{
-	ID:   "C03",
-	Rule: "generated: CountingWindow(N), N 1..8, optional group column, 1-4 consecutive batches per key through one instance; values int/float64 (negative, zero, repeats, large), NULL, missing; argument shapes v, d.v, v + w, v * 2, v - 1; SELECT list = random subset of count(*), count, sum, avg, min, max, stddev, stddevs, var, vars, median, percentile(p), first_value, last_value, nth_value, collect, deduplicate, merge_agg. oracle: reference definitions on exactly the batch's rows (NULL/missing skipped, empty input -> NULL for sum/avg/min/max, population vs sample formulas, percentile accepted between the neighbouring order statistics), plus a twin instance fed each batch permuted (order-insensitive aggregates must agree). non-trivial = a batch with a NULL/missing value and >= 2 distinct numbers, or >= 2 batches; distinct by case hash",
+	ID:          "C03",
+	Rule:        "generated: CountingWindow(N), N 1..8, optional group column, 1-4 consecutive batches per key through one instance; values int/float64 (negative, zero, repeats, large), NULL, missing; argument shapes v, d.v, v + w, v * 2, v - 1, v * 0.5, v * 1.5, d.v * 2 (drawn per aggregate, so one query mixes them); SELECT list = random subset of count(*), count, sum, avg, min, max, stddev, stddevs, var, vars, median, percentile(p), first_value, last_value, nth_value, collect, deduplicate, merge_agg. oracle: reference definitions on exactly the batch's rows (NULL/missing skipped, empty input -> NULL for sum/avg/min/max, population vs sample formulas, percentile accepted between the neighbouring order statistics), plus a twin instance fed each batch permuted (order-insensitive aggregates must agree). non-trivial = a batch with a NULL/missing value and >= 2 distinct numbers, or >= 2 batches; distinct by case hash",
 	Assumptions: []string{"stddev/var/median/percentile over no usable input: NULL, 0 or NaN accepted (not fixed by the guide)", "first_value/last_value: a missing field may be reported as NULL or skipped; an explicit NULL is reported", "nth_value: n-th row or n-th usable value accepted"},
-	Gen:      genCase,
-	Run:      runCase,
-	Features: features,
+	Gen:         genCase,
+	Run:         runCase,
+	Features:    features,
 }
 
 func TestProp(t *testing.T)    { pbt.RunProp(t, spec) }
